@@ -283,6 +283,9 @@ def run(repo, rep):
              'association of the entity', 1)
     rep.rule('C20.H4', 'no module-level or class-level container is mutated by a function reachable from an association thread', 1)
     rep.rule('C20.H5', 'storage files in the shared directory are created atomically (exclusive create)', 1)
+    rep.rule('C20.H7', 'the server entity hands every accepted connection to a thread of its own: in the method resolution order of '
+             'AE, process_request is the threading mix-in\'s, not the synchronous one of the socket server', 1)
+    check_threaded_server(repo, rep)
 
     init = repo.module('__init__')
     # ---------------------------------------------------------------- H1
@@ -532,3 +535,100 @@ def run(repo, rep):
         probs.append('no open() found')
     rep.check(not probs, 'C20.H5', '__init__:_get_storage_file:atomic-create', gsf.loc(),
               'storage file created with exclusive mode', '; '.join(probs))
+
+
+# external server classes: their method resolution orders (CPython socketserver)
+_EXT_MRO = {
+    'object': ['object'],
+    'socketserver.BaseServer': ['socketserver.BaseServer', 'object'],
+    'socketserver.TCPServer': ['socketserver.TCPServer', 'socketserver.BaseServer', 'object'],
+    'socketserver.UDPServer': ['socketserver.UDPServer', 'socketserver.TCPServer', 'socketserver.BaseServer', 'object'],
+    'socketserver.ThreadingMixIn': ['socketserver.ThreadingMixIn', 'object'],
+    'socketserver.ForkingMixIn': ['socketserver.ForkingMixIn', 'object'],
+    'socketserver.ThreadingTCPServer': ['socketserver.ThreadingTCPServer', 'socketserver.ThreadingMixIn', 'socketserver.TCPServer',
+                                        'socketserver.BaseServer', 'object'],
+    'socketserver.ForkingTCPServer': ['socketserver.ForkingTCPServer', 'socketserver.ForkingMixIn', 'socketserver.TCPServer',
+                                      'socketserver.BaseServer', 'object'],
+}
+_DEFINES_PROCESS_REQUEST = {'socketserver.BaseServer': 'synchronous', 'socketserver.ThreadingMixIn': 'thread per request',
+                            'socketserver.ForkingMixIn': 'process per request'}
+
+
+def _c3(repo, c, depth=0):
+    """C3 linearisation of a package class over package and socketserver classes: list of ClassInfo / dotted external names;
+    None when a base is not known"""
+    if depth > 20:
+        return None
+    seqs = []
+    direct = []
+    for b in c.base_exprs:
+        try:
+            r = repo.resolve_expr(b, c.module)
+        except Exception:
+            r = None
+        from ..srcmodel import ClassRef
+        if isinstance(r, ClassRef):
+            k = repo.cls(r.module, r.name)
+            lin = _c3(repo, k, depth + 1)
+            if lin is None:
+                return None
+            seqs.append(list(lin))
+            direct.append(k)
+        else:
+            name = norm(b)
+            name = {'six.moves.socketserver.' + n.split('.')[-1]: n for n in _EXT_MRO}.get(name, name)
+            if name not in _EXT_MRO:
+                if name == 'object':
+                    name = 'object'
+                else:
+                    return None
+            seqs.append(list(_EXT_MRO[name]))
+            direct.append(name)
+    if not direct:
+        seqs.append(['object'])
+        direct.append('object')
+    seqs.append(list(direct))
+    out = [c]
+    ident = lambda x: x if isinstance(x, str) else x.key
+    while any(seqs):
+        seqs = [s_ for s_ in seqs if s_]
+        for s_ in seqs:
+            cand = s_[0]
+            if not any(ident(cand) in [ident(y) for y in t_[1:]] for t_ in seqs):
+                break
+        else:
+            return None      # inconsistent hierarchy
+        out.append(cand)
+        for s_ in seqs:
+            if s_ and ident(s_[0]) == ident(cand):
+                del s_[0]
+    return out
+
+
+def check_threaded_server(repo, rep):
+    """H7: each incoming association is served in a thread of its own."""
+    ae = repo.cls('applicationentity', 'AE')
+    lin = _c3(repo, ae)
+    if lin is None:
+        rep.undecided('C20.H7', '%s: a base class of the server entity is neither a class of the package nor one of socketserver\'s' % ae.loc())
+        return
+    first = None
+    for k in lin:
+        if isinstance(k, str):
+            if k in _DEFINES_PROCESS_REQUEST:
+                first = (k, _DEFINES_PROCESS_REQUEST[k])
+                break
+        elif 'process_request' in k.methods:
+            first = (k.key, 'own')
+            break
+    names = [k if isinstance(k, str) else k.name for k in lin]
+    if first is None:
+        rep.undecided('C20.H7', '%s: no process_request in the resolution order %s' % (ae.loc(), names))
+        return
+    if first[1] == 'own':
+        rep.undecided('C20.H7', '%s: %s defines process_request itself; how it dispatches a request is not modelled' % (ae.loc(), first[0]))
+        return
+    rep.check(first[1] != 'synchronous', 'C20.H7', 'applicationentity:AE:threaded-dispatch', ae.loc(),
+              'process_request resolves to %s (%s): resolution order %s' % (first[0], first[1], ' -> '.join(names)),
+              'process_request resolves to %s (%s) in the resolution order %s: the threading mix-in comes after the server class, so every '
+              'association runs in the accept loop and the entity serves one association at a time' % (first[0], first[1], ' -> '.join(names)))
